@@ -398,24 +398,28 @@ def Rd.decodeScanLine (r : Rd) (p : CParams) (refLine : Bits) : Rd × Bits :=
   let n := min refLine.length r.line.length
   (r, r.line.take n ++ refLine.drop n)
 
-/-- `Reader.Read` until it reports an error or EOF: delivered rows, and the final error
+/-- `Reader.Read` until it reports an error or EOF: the delivered rows, and the final error
 (1 = io.EOF: clean end, 2 = decoding error → malformed) -/
-def Rd.readAll (r : Rd) (p : CParams) : (fuel : Nat) → (numRows : Nat) → (refLine : Bits) → Bytes × Nat
+def Rd.readRows (r : Rd) (p : CParams) : (fuel : Nat) → (numRows : Nat) → (refLine : Bits) → List Bytes × Nat
   | 0, _, _ => ([], 1)
   | fuel + 1, numRows, refLine =>
     if r.err = 0 ∧ (p.maxRows = 0 ∨ numRows < p.maxRows) then
       let (r, refLine) := r.decodeScanLine p refLine
       if r.line.isEmpty then ([], if r.err = 0 then 1 else r.err)
       else
-        let (more, e) := Rd.readAll { r with line := [] } p fuel (numRows + 1) refLine
-        ((packBits r.line).1 ++ more, e)
+        let (more, e) := Rd.readRows { r with line := [] } p fuel (numRows + 1) refLine
+        ((packBits r.line).1 :: more, e)
     else ([], if r.err = 0 then 1 else r.err)
+
+/-- `NewReader`: the rows `io.ReadAll` collects -/
+def decodeRows (p : CParams) (data : Bytes) : List Bytes × Nat :=
+  let refLine : Bits := if p.k ≠ 0 then List.replicate (p.lineBytes * 8) (!p.blackIs1) else []
+  let r : Rd := { win := [], src := data, err := 0, line := [] }
+  Rd.readRows r p (8 * data.length + 8) 0 refLine
 
 /-- `NewReader` + `io.ReadAll` -/
 def decodeAll (p : CParams) (data : Bytes) : Bytes × Nat :=
-  let refLine : Bits := if p.k ≠ 0 then List.replicate (p.lineBytes * 8) (!p.blackIs1) else []
-  let r : Rd := { win := [], src := data, err := 0, line := [] }
-  Rd.readAll r p (8 * data.length + 8) 0 refLine
+  ((decodeRows p data).1.flatten, (decodeRows p data).2)
 
 /-- `BufferBytes(p)` for `Columns > 0` -/
 def bufferBytes (p : CParams) : Nat :=
